@@ -38,4 +38,9 @@ theorem atomic_order : Facts.pv_atomic_order = ["OpenFile", "Write", "Rename"] :
 theorem flush_before_sign : Facts.cs_signVote_flush_first = ["FlushAndSync", "SignVote"] ∧
     Facts.cs_proposal_flush_first = ["FlushAndSync", "SignProposal"] := by decide
 
+/-- the proposer keeps the timestamp the signer signed (fix 14bb07b): a reused signature comes with
+the stored timestamp; without this line the re-proposal after a crash is not validly signed and
+`replay_not_refused_partial` has no counterpart in the code -/
+theorem proposal_keeps_signed_timestamp : Facts.cs_proposal_keeps_signed_timestamp = true := by decide
+
 end Tmv.Expect.C04
